@@ -19,6 +19,7 @@ import (
 	"sort"
 	"strconv"
 	"strings"
+	"sync"
 	"syscall"
 	"time"
 
@@ -1354,6 +1355,27 @@ func main() {
 			}
 		}
 	}
+	// read-only steps run on a few histories at a time (each history has its own runner; the server is shared)
+	pstep := func(name string, f func(rn *runner) error) {
+		var wg sync.WaitGroup
+		ch := make(chan *runner)
+		for w := 0; w < 4; w++ {
+			wg.Add(1)
+			go func() {
+				defer wg.Done()
+				for rn := range ch {
+					if err := f(rn); err != nil {
+						rn.out.StepErrs = append(rn.out.StepErrs, fmt.Sprintf("%s: %v", name, err))
+					}
+				}
+			}()
+		}
+		for _, rn := range rs {
+			ch <- rn
+		}
+		close(ch)
+		wg.Wait()
+	}
 	for i, h := range hs {
 		rs[i] = &runner{s: srv, h: h, ref: &ref{h: h, dead: map[string]bool{}, known: map[string]map[string]bool{}}, out: &Out{History: *h, Oracle: []string{}, Transient: []string{}, StepErrs: []string{}}}
 	}
@@ -1380,8 +1402,8 @@ func main() {
 	_ = srv.ctrl("mod=flush") // W1 is in files now; W2 (older timestamps) stays in the memtable until after the drop
 	step("write2", func(rn *runner) error { rn.ref.add(rn.h.W2); return rn.writePoints(rn.h.W2) })
 	settle()
-	step("visible1", func(rn *runner) error { rn.waitVisible(); return nil })
-	step("before", func(rn *runner) error { rn.readAll("before", rn.h.PrimeTF); return nil })
+	pstep("visible1", func(rn *runner) error { rn.waitVisible(); return nil })
+	pstep("before", func(rn *runner) error { rn.readAll("before", rn.h.PrimeTF); return nil })
 	// phase 2: the drop
 	step("drop", func(rn *runner) error {
 		h := rn.h
@@ -1427,7 +1449,7 @@ func main() {
 		}
 		return err
 	})
-	step("after-drop", func(rn *runner) error { rn.readAll("after-drop", false); return nil })
+	pstep("after-drop", func(rn *runner) error { rn.readAll("after-drop", false); return nil })
 	// phase 3: writes after the drop (re-creating what was dropped)
 	step("write3", func(rn *runner) error {
 		h := rn.h
@@ -1453,8 +1475,8 @@ func main() {
 		return rn.writePoints(h.W3)
 	})
 	settle()
-	step("visible2", func(rn *runner) error { rn.waitVisible(); return nil })
-	step("after-writes", func(rn *runner) error { rn.readAll("after-writes", false); return nil })
+	pstep("visible2", func(rn *runner) error { rn.waitVisible(); return nil })
+	pstep("after-writes", func(rn *runner) error { rn.readAll("after-writes", false); return nil })
 	// phase 4: flush, then force compaction and out-of-order merge: eight write+flush rounds give every measurement eight
 	// level-0 files and eight out-of-order files; the level compaction and the merge fire at the compactor's next tick (10 s).
 	// The rows of dropped series are still in those files and are rewritten by the compaction.
@@ -1470,7 +1492,7 @@ func main() {
 		_ = srv.ctrl("mod=flush")
 	}
 	comp := waitCompaction(filepath.Join(dir, "og", "data", "data"), 40*time.Second)
-	step("after-flush", func(rn *runner) error { rn.readAll("after-flush", false); return nil })
+	pstep("after-flush", func(rn *runner) error { rn.readAll("after-flush", false); return nil })
 	// phase 5: kill -9 and restart
 	srv.kill()
 	if err := srv.start(); err != nil {
@@ -1479,7 +1501,7 @@ func main() {
 		}
 	} else {
 		time.Sleep(1500 * time.Millisecond)
-		step("after-restart", func(rn *runner) error { rn.readAll("after-restart", false); return nil })
+		pstep("after-restart", func(rn *runner) error { rn.readAll("after-restart", false); return nil })
 	}
 	// phase 6 (late drops and the crash). For the first few DROP SERIES / DROP MEASUREMENT histories of the shared database:
 	//   * W4: a series host=e whose points lie in a time range that has no index yet (its index is created now, AFTER the
@@ -1525,7 +1547,7 @@ func main() {
 			return rn.writePoints(rn.out.W4)
 		})
 		settle()
-		step("visible4", func(rn *runner) error {
+		pstep("visible4", func(rn *runner) error {
 			if rn.late {
 				rn.waitVisible()
 			}
@@ -1549,7 +1571,7 @@ func main() {
 			_, err := srv.query(h.DB, "drop series from "+fullMst(h, m)+" where host = 'f'")
 			return err
 		})
-		step("after-late-drop", func(rn *runner) error {
+		pstep("after-late-drop", func(rn *runner) error {
 			if rn.late {
 				rn.sets = map[string][]row{"d3": rn.dropped3, "d4": rn.dropped4}
 				rn.readAll("after-late-drop", false)
@@ -1588,7 +1610,7 @@ func main() {
 			}
 		} else {
 			time.Sleep(1500 * time.Millisecond)
-			step("after-crash", func(rn *runner) error {
+			pstep("after-crash", func(rn *runner) error {
 				if rn.out.Drop2 != nil || rn.late {
 					// a wrong answer in this phase is classified by the subset of the late drops whose undoing explains it
 					rn.sets = map[string][]row{}
